@@ -31,6 +31,7 @@ import (
 	"os"
 	"path/filepath"
 	"reflect"
+	"runtime"
 	"sort"
 	"strings"
 	"sync"
@@ -54,7 +55,6 @@ import (
 	"github.com/vx-labs/wasp/v4/wasp/auth"
 	"github.com/vx-labs/wasp/v4/wasp/distributed"
 	"github.com/vx-labs/wasp/v4/wasp/messages"
-	"github.com/vx-labs/wasp/v4/wasp/taps"
 	"github.com/vx-labs/wasp/v4/wasp/transport"
 	"go.uber.org/zap"
 	"google.golang.org/grpc"
@@ -126,6 +126,30 @@ func tagOf(p []byte) string {
 	return string(p)
 }
 
+type tapRecorder struct{ w *world }
+
+func (t *tapRecorder) Run(ctx context.Context) { <-ctx.Done() }
+func (t *tapRecorder) Dispatch(ctx context.Context, sender string, p *packet.Publish) error {
+	t.w.mu.Lock()
+	t.w.goTag[goid()] = tagOf(p.Payload)
+	t.w.mu.Unlock()
+	return nil
+}
+
+func goid() int64 {
+	var buf [64]byte
+	n := runtime.Stack(buf[:], false)
+	// "goroutine 123 ["
+	var id int64
+	for _, c := range buf[10:n] {
+		if c < '0' || c > '9' {
+			break
+		}
+		id = id*10 + int64(c-'0')
+	}
+	return id
+}
+
 // ---------------------------------------------------------------------------------------
 // nodes
 
@@ -177,6 +201,20 @@ func (r *rpcTransport) Call(id uint64, f func(*grpc.ClientConn) error) error {
 	w.mu.Lock()
 	known := dst >= 0 && w.nodes[r.src].known[dst]
 	w.mu.Unlock()
+	w.mu.Lock()
+	disabled := w.rpcMode[[2]int{r.src, dst}] == "disabled"
+	w.mu.Unlock()
+	if known && disabled {
+		// the cluster pool has the peer but its health check marked it unusable: Call returns an
+		// error without ever invoking the callback
+		w.statAdd("fault.rpc_peer_disabled", 1)
+		w.mu.Lock()
+		tag := w.goTag[goid()]
+		w.rpcs = append(w.rpcs, rpcRec{Src: r.src, Dst: dst, Stamp: atomic.AddInt64(&w.stamp, 1), AtMs: w.nowMs(), Tag: tag, Outcome: "disabled"})
+		w.disabledCalls = append(w.disabledCalls, rpcRec{Src: r.src, Dst: dst, AtMs: w.nowMs(), Tag: tag})
+		w.mu.Unlock()
+		return errors.New("peer disabled")
+	}
 	if !known {
 		w.statAdd("rpc.peer_not_found", 1)
 		w.mu.Lock()
@@ -368,6 +406,8 @@ type world struct {
 	forcedDelay map[int]int64
 	appLogged  int
 	rpcStarted []rpcRec
+	disabledCalls []rpcRec
+	goTag         map[int64]string
 	viewAt     map[int][]string // publish step -> listing of the publisher's node at that instant
 	pingKnow   map[int64]pingKnowledge
 	evOrd       int64             // ordinal of the event being applied
@@ -454,7 +494,10 @@ func (w *world) startNode(n *simNode, authh wasp.AuthenticationHandler) {
 	n.writer = wr
 	go wasp.SchedulePublishes(n.id, wr, n.log)(n.ctx)
 	go wr.Run(n.ctx, n.log)
-	tapsRunner := taps.NewDispatcher([]taps.Tap{nil})
+	// the taps dispatcher is called synchronously by the publish worker right before it
+	// distributes a message: the simulator uses it to know which publish a worker goroutine is
+	// handling (a call refused by the cluster pool never reaches a callback that could tell)
+	tapsRunner := &tapRecorder{w: w}
 	go tapsRunner.Run(n.ctx)
 	pp := wasp.NewPacketProcessor(n.local, n.dstate, wr, tapsRunner, n.distributor, inflights)
 	go pp.Run(n.ctx)
@@ -608,7 +651,7 @@ func (s seededReader) Read(p []byte) (int, error) {
 func newWorld(t *testing.T, c *Case, o *Outcome) *world {
 	w := &world{t: t, c: c, o: o, start: time.Now(), clients: map[int]*simClient{}, conns: map[[2]int]*grpc.ClientConn{},
 		blocked: map[[2]int]bool{}, rpcMode: map[[2]int]string{}, rpcN: map[[2]int]int{}, gossipN: map[[2]int]int{},
-		seed: c.Seed, stats: map[string]int64{}, leaveAt: map[[2]int]int64{}, lateGossip: map[[2]int]bool{}, notify: make(chan struct{}, 1), forcedDelay: map[int]int64{}, viewAt: map[int][]string{}, pingKnow: map[int64]pingKnowledge{}, knownAtStop: map[int]map[string]bool{}, stopAt: map[int]int64{}}
+		seed: c.Seed, stats: map[string]int64{}, leaveAt: map[[2]int]int64{}, lateGossip: map[[2]int]bool{}, notify: make(chan struct{}, 1), forcedDelay: map[int]int64{}, goTag: map[int64]string{}, viewAt: map[int][]string{}, pingKnow: map[int64]pingKnowledge{}, knownAtStop: map[int]map[string]bool{}, stopAt: map[int]int64{}}
 	base := os.Getenv("VERIF_DATA")
 	if base == "" {
 		base = os.TempDir()
@@ -1274,7 +1317,7 @@ func (w *world) react(cl *simClient, p *mpkt, at int64) {
 			if ex.state == 0 {
 				ex.gaps = append(ex.gaps, at-ex.lastAt)
 			}
-			if ex.topic != p.Topic || ex.payload != string(p.Payload) {
+			if ex.topic != p.Topic || ex.payload != string(p.Payload) || ex.qos != p.Qos {
 				ex.plan += "!changed"
 			}
 		}
